@@ -70,13 +70,13 @@ inductive LoadErr where
 
 namespace Options
 
-def defaultDb : Bytes := ofString "food.yaml"
-def defaultLog : Bytes := ofString "log.yaml"
-def defaultLayout : Bytes := ofString "2006/01/02"
-def defaultMaxDepth : Int := 10
+def defaultDb : Bytes := Facts.defaultDbFilename
+def defaultLog : Bytes := Facts.defaultLogFilename
+def defaultLayout : Bytes := Facts.defaultDateFormat
+def defaultMaxDepth : Int := Facts.defaultMaxDepth
 def devNull : Bytes := App.devNull
 /-- upper bound accepted by validateOptions (fix for C08) -/
-def maxAllowedDepth : Int := 10000
+def maxAllowedDepth : Int := Facts.maxAllowedDepth
 
 /-- `c.String(name)`: the flag, else the environment variable, else the flag's default -/
 def cliValue {α} (flag env : Option α) (dflt : α) : α :=
